@@ -120,8 +120,9 @@ pub fn judge(case: &Case) -> Verdict {
                 if !cons {
                     problems.push("fails-own-consistency-test");
                 }
-                if v == 0 && (dflt != h || !dflt.is_invalid()) {
-                    problems.push("default-not-invalid-zero");
+                // the statement says nothing about WHICH rank is the default; only that a rank describes its value
+                if v == 0 && dflt != HandRank::from(dflt.value) {
+                    problems.push("default-is-not-the-rank-of-its-value");
                 }
                 if problems.is_empty() {
                     Verdict::Holds
